@@ -1,37 +1,24 @@
 package main
 
 import (
-	"encoding/json"
 	"fmt"
-	"os"
 
 	"git.sr.ht/~rockorager/vaxis"
-
-	"verif/internal/evp"
-	"verif/internal/harness"
+	"git.sr.ht/~rockorager/vaxis/vxfw"
+	"git.sr.ht/~rockorager/vaxis/vxfw/text"
 )
 
 func main() {
-	b, _ := os.ReadFile(os.Args[1])
-	var d struct {
-		Violation struct {
-			Case []struct {
-				Bytes string `json:"bytes"`
-			} `json:"case"`
-		} `json:"violation"`
+	ctx := vxfw.DrawContext{Characters: vaxis.Characters, Max: vxfw.Size{Width: 1, Height: 10}}
+	s := "a你\n "
+	sc := text.NewSoftwrapScanner(s, 1)
+	for sc.Scan(ctx) {
+		fmt.Printf("line %q\n", sc.Text())
 	}
-	json.Unmarshal(b, &d)
-	p, err := evp.New(0, vaxis.Options{})
-	if err != nil {
-		panic(err)
+	t := text.New(s)
+	sf, _ := t.Draw(ctx)
+	fmt.Println(sf.Size)
+	for i, c := range sf.Buffer {
+		fmt.Printf("%d %q\n", i, c.Grapheme)
 	}
-	for _, e := range d.Violation.Case {
-		evs, ok := p.Decode([][]byte{[]byte(e.Bytes)})
-		if !ok {
-			fmt.Printf("STUCK at %q evs=%#v\n", e.Bytes, evs)
-			fmt.Println(harness.AllStacks())
-			return
-		}
-	}
-	fmt.Println("all ok")
 }
